@@ -88,7 +88,8 @@ reg("C12", "exploration",
     "algebraic / metamorphic oracles (set arithmetic over commitments, own mod-n offset adder) over permutations and groupings; hydration differential",
     "Pools of valid transactions (independent, chains, diamonds, fan-outs, multi-kernel, all kernel variants, zero / cancelling offsets) are "
     "aggregated in every permutation (<=5 operands) and random groupings: result validates, kernels = union, offset = sum (own 256-bit "
-    "adder), inputs/outputs = union minus exactly the matched pairs, order and grouping independent, deaggregate(agg, subset) == remainder; "
+    "adder), inputs/outputs = union minus exactly the matched pairs, order and grouping independent, deaggregate(agg, subset) == remainder "
+    "(also when different kernels on both sides of the split are signed under one excess key); "
     "blocks built from them survive CompactBlock::from + hydrate_from in any grouping bit for bit (fresh nonces, own SipHash reference for short ids).",
     "Short-id collision handling and fee_shift != 0 are not exercised.")
 
@@ -96,18 +97,19 @@ reg("C13", "exploration",
     "reference-rule oracle (ledger arithmetic on the fork being extended) over scripted boundary scenarios on forks, reorgs, rewinds and the pool",
     "78 (rule x placement class x boundary offset) cells: coinbase maturity, lock heights and NRD relative locks at one below / at / one above "
     "the threshold, on a single chain, across fork points, on fork blocks re-applied during a reorg, after rewinds (A->B->A'), NRD duplicates "
-    "across forks and inside one block, and pool admission incl. with header_head on a competing fork; every process_block / add_to_pool "
-    "decision is compared with the rule evaluated by the reference ledger.",
+    "across forks and inside one block, repeated 4-6 times with deep rewinds, and again after the chain was compacted above the first "
+    "occurrence (and restarted); pool admission incl. with header_head on a competing fork and a pool kept through a reorg; every "
+    "process_block / add_to_pool / validate_tx decision is compared with the rule evaluated by the reference ledger.",
     "AutomatedTesting parameters (maturity 3). Stempool interactions are C14's.")
 
 reg("C19", "exploration",
     "sent-vs-received history comparison over every split point / multi-splits / dribble; refusal monitors (bytes consumed, allocation) at per-type limits; scripted handshake matrix",
     "Real Codec::read and conn::listen over loopback sockets: every single split point of short sequences covering every message type at four "
     "protocol versions, header lists of 1..512 headers with varying edge bits cut at every header boundary, attachments around the 48 000 byte "
-    "chunking, unknown types, 5k-100k random sequences with delays; refused frames (wrong magic, over-limit length per type, count vs length) "
+    "chunking, unknown types, 5k-100k random sequences with delays, one 2.6 s silence (longer than the header timeout) inside each body in turn; refused frames (wrong magic, over-limit length per type, count vs length) "
     "must error having consumed <= 11 bytes and without allocating the announced size; handshake negotiates min(local, remote), refuses "
     "other genesis and self connections.",
-    "Delays stay far below the 2 s / 60 s codec timeouts (premise of the property). One recorded known finding (under-counted item lists are accepted).")
+    "Silences inside the 11 header bytes stay far below the 2 s header timeout, silences inside bodies below the 60 s body timeout (premise of the property). One recorded known finding (under-counted item lists are accepted).")
 
 reg("C08", "exploration",
     "online reference-model monitor (unpruned leaf history + MMR by definition) over random unit-of-work programs on the real PMMR backend; chain-level compaction differential",
@@ -122,7 +124,8 @@ reg("C08", "exploration",
 reg("C14", "exploration",
     "invariant hooks re-evaluated from scratch after every pool operation on the real Chain + TransactionPool + server adapters wiring",
     "Random operation sequences (valid / conflicting / dependent / duplicate / aggregated / low-fee / overweight / invalid submissions, stem and "
-    "fluff, mining from prepare_mineable_transactions, foreign blocks with subsets or conflicting spends, reorgs, eviction at capacity) run "
+    "fluff, mining from prepare_mineable_transactions, foreign blocks with subsets or conflicting spends, reorgs incl. what the reorg cache "
+    "hands back next to a stem spender of the same coin, eviction at capacity) run "
     "against the node's own wiring (ChainToPoolAndNetAdapter, PoolToChainAdapter). After every operation: the txpool aggregate validates and "
     "passes Chain::validate_tx, no shared inputs, stempool+txpool jointly valid, nothing violating fee / weight / validity was admitted, the "
     "mineable set assembles into a block within the weight limit that process_block accepts.",
@@ -132,7 +135,8 @@ reg("C15", "exploration",
     "reference-model monitor: from-scratch bitmap commitment over the replayed unspent set vs the node's incremental accumulator, on multi-chunk worlds; forged-root blocks",
     "A trunk spanning 2 (quick) / 4 (thorough) 1024-bit chunks is built once; scenarios on separate nodes: spends at indices 1020-1027, in the "
     "oldest chunk, in the last partial chunk; a reorg from below the 1024-output boundary (rewind shrinks the output set across a chunk "
-    "boundary), regrowth, reorg back; random mixes with winning forks; restart. After EVERY accepted block the node's bitmap root must equal "
+    "boundary), regrowth, reorg back; random mixes with winning forks; head resets with no block following (Chain::reset_chain_head over "
+    "odd and even output counts); restart. After EVERY accepted block and head reset the node's bitmap root must equal "
     "the commitment recomputed from scratch; blocks whose output_root commits to another bitmap (5 variants, everything else right) must be refused.",
     "SKIP_POW delivery. Trusted base: hash primitive and BitmapChunk serialisation.")
 
@@ -141,7 +145,8 @@ reg("C18", "exploration",
     "Single-thread programs over 3 key spaces with nested batches to depth 3 and every commit/drop fate chain, compared op by op and after "
     "reopen with a stack-of-overlays model; multi-thread runs (writers, point readers, snapshot iterators, iterator holders sleeping across "
     "pending map resizes, >10 000 keys per space) where every snapshot must contain all or none of each batch's keys and equal some prefix of "
-    "the commit log; no operation may fail for lack of space during >=5 resizes; every crash point lmdb.commit.pre/post (also after a resize) "
+    "the commit log; no operation may fail for lack of space during >=5 resizes, also when the writing thread itself holds an iterator "
+    "at the batch() call at which the enlargement falls due; every crash point lmdb.commit.pre/post (also after a resize) "
     "is killed by abort and the reopened content must equal exactly the state for the completed commits.",
     "Process death, not power loss (OS page cache survives). Batches are sized to fit the 10% headroom the resize policy leaves (assumption recorded in the evidence).")
 
@@ -170,7 +175,8 @@ reg("C20", "exploration",
     "Key derivation and commitments agree across calls and across keychains from the same seed and are pairwise distinct otherwise; range "
     "proofs from both builders verify and rewind to exactly (amount, path, mode) with the same seed or a matching view key and to nothing with "
     "another seed; split / sum / add-subtract identities against an independent 256-bit mod-n adder; builder transactions, rewards and "
-    "blocks validate and their kernel signatures verify; aggsig sign/verify round trips and refusals.",
+    "blocks validate and their kernel signatures verify; aggsig sign/verify round trips and refusals; kernels signed jointly by 2-3 parties "
+    "(partial_transaction per party, partial signatures, add_signatures) verify and their transactions validate.",
     "secp256k1-zkp internals are the trusted base. One recorded known finding (view keys cannot rewind Regular-switch outputs: unimplemented upstream).")
 
 reg("C16", "exploration",
@@ -189,7 +195,8 @@ reg("C17", "exploration",
     "One real Chain shared by 3-6 peer threads (competing forks, header-first, duplicates, orphans) and 3-7 reader / template / validate / "
     "compactor / segmenter threads behind a barrier, sched_point perturbation at lock and commit points with a per-run seed; 270 (quick) / "
     "~2700 (thorough) runs. Readers: head always names a stored block, observed work never decreases, head+roots+sizes read under one lock "
-    "equal the reference ledger's commitments, block templates carry reference roots; event logs form a chain of strictly increasing work to "
+    "equal the reference ledger's commitments, block templates carry reference roots, every get_unspent answer (None included) is the "
+    "answer of the state of a head of the call interval; event logs form a chain of strictly increasing work to "
     "accepted stored blocks; end state == unique max-work block == replayed reference == sequentially fed node, validate(false). No progress "
     "for 60 s -> all-thread gdb backtraces, re-run; only a reproduced hang is a violation. Thorough adds a TSan build (any report with a /repo frame is a violation).",
     "Schedules the OS scheduler plus perturbation never produce are out of reach; at most 14 threads per run.")
